@@ -140,7 +140,21 @@ func c16Workload(g *rand.Rand, port int, dur time.Duration) int {
 	blocker2 := func(c *Conn, r *rand.Rand) [][]string {
 		return [][]string{{"SELECT", fmt.Sprint(1 + r.Intn(3))}, {"BLPOP", "kl", "0.005"}, {"BRPOP", "bq", "kl", "0.005"}, {"RPUSH", "bq", "x"}}
 	}
-	fns := []func(c *Conn, r *rand.Rand) [][]string{data, data, data, intro, intro, sel, tx, tx, blocker, blocker, feeder, flusher, selmany, xwatch, sel, blocker2, blocker2}
+	// writer/reader pairs hammering ONE key per type: in-place writes against readers that look at the
+	// value after the lock is released
+	pairW := func(c *Conn, r *rand.Rand) [][]string {
+		return [][]string{[][]string{{"SETBIT", "pb", fmt.Sprint(r.Intn(500)), fmt.Sprint(r.Intn(2))}, {"BITFIELD", "pb", "SET", "u8", fmt.Sprint(8 * r.Intn(60)), fmt.Sprint(r.Intn(256))},
+			{"BITFIELD", "pb", "INCRBY", "i16", fmt.Sprint(r.Intn(400)), "3"}, {"SETRANGE", "ps", fmt.Sprint(r.Intn(40)), "zz"}, {"APPEND", "ps", "a"}, {"LSET", "pl", fmt.Sprint(r.Intn(3)), "w"},
+			{"RPUSH", "pl", "x"}, {"LPOP", "pl"}, {"HSET", "ph", "f1", fmt.Sprint(r.Intn(99))}, {"HINCRBY", "ph", "n", "1"}, {"SADD", "pz", fmt.Sprint(r.Intn(9))}, {"SREM", "pz", fmt.Sprint(r.Intn(9))},
+			{"SET", "pb", strings.Repeat("\x55", 64)}, {"BITOP", "NOT", "pb2", "pb"}, {"INCR", "pc"}, {"EXPIRE", "ps", "100"}, {"PERSIST", "ps"}}[r.Intn(17)]}
+	}
+	pairR := func(c *Conn, r *rand.Rand) [][]string {
+		return [][]string{[][]string{{"GETBIT", "pb", fmt.Sprint(r.Intn(500))}, {"BITCOUNT", "pb"}, {"BITPOS", "pb", "1"}, {"BITPOS", "pb", "0", "2", "-1"}, {"BITFIELD", "pb", "GET", "u8", "16"},
+			{"BITFIELD_RO", "pb", "GET", "i16", "32"}, {"GET", "pb"}, {"GETRANGE", "ps", "0", "-1"}, {"STRLEN", "ps"}, {"LCS", "ps", "pb", "LEN"}, {"LRANGE", "pl", "0", "-1"}, {"LINDEX", "pl", "1"},
+			{"LPOS", "pl", "w"}, {"HGETALL", "ph"}, {"HGET", "ph", "f1"}, {"HVALS", "ph"}, {"SMEMBERS", "pz"}, {"SISMEMBER", "pz", "3"}, {"SINTER", "pz", "pz"}, {"SORT", "pz"}, {"SORT", "pl", "ALPHA"},
+			{"DUMP", "pb"}, {"TTL", "ps"}, {"TYPE", "pl"}, {"BITOP", "AND", "pb3", "pb", "pb2"}, {"COPY", "ph", "ph2", "REPLACE"}, {"GET", "pc"}}[r.Intn(27)]}
+	}
+	fns := []func(c *Conn, r *rand.Rand) [][]string{data, data, data, intro, intro, sel, tx, tx, blocker, blocker, feeder, flusher, selmany, xwatch, sel, blocker2, blocker2, pairW, pairR, pairR, pairW}
 	for i, f := range fns {
 		wg.Add(1)
 		go worker(i, f, i%3 == 0)
@@ -226,7 +240,7 @@ func runC16(cfg runCfg, res *Result) error {
 		sites = append(sites, s)
 	}
 	sort.Strings(sites)
-	res.Samples = append(res.Samples, fmt.Sprintf("17 concurrent connections for %v: data commands x introspection x SELECT (16 databases)/FLUSH x MULTI/EXEC (also with keys watched in another database) x blocking commands (in four databases) x reconnects, saver pass every 7 ms, a second emulator started and closed", dur))
+	res.Samples = append(res.Samples, fmt.Sprintf("21 concurrent connections for %v: data commands x introspection x SELECT (16 databases)/FLUSH x MULTI/EXEC (also with keys watched in another database) x blocking commands (in four databases) x writer/reader pairs on one key per type x reconnects, saver pass every 7 ms, a second emulator started and closed", dur))
 	for _, s := range sites {
 		m := &Mismatch{Index: -1, Op: "data race", Why: "the race detector reports unsynchronised accesses at " + s}
 		known := false
